@@ -228,7 +228,7 @@ def run_mesh(ctx, i):
 def run_large_kernel(ctx, i):
     """Kernel schemes on meshes many correlation lengths across (up to 16x14 = 224 pixels), where a covariance that is not a
     positive-definite function (e.g. a truncated Gaussian) loses definiteness. The covariance is ill-conditioned there
-    (cond up to 1e9), so the claim is the noise-floor-aware one: min eig(H) >= -n*u*cond(C)*lambda_max(H); the strict PD claim
+    (cond up to ~2e10, bounded by the 1e-8 ridge), so the claim is the noise-floor-aware one: min eig(H) >= -n*u*cond(C)*lambda_max(H); the strict PD claim
     is kept for cond(C) <= 1e6."""
     aa = ctx.aa
     rng = gen.rng_for(ctx.seed, NO, 3, i)
@@ -250,14 +250,19 @@ def run_large_kernel(ctx, i):
     spacing = float(np.min(d[d > 0]))
     for name in ("GaussianKernel", "ExponentialKernel"):
         f = float(rng.uniform(1.0, 1.6)) if name == "GaussianKernel" else float(rng.uniform(1.0, 4.0))
+        if name == "GaussianKernel" and i % 3 == 2:
+            # pixels packed much closer than the correlation length: the covariance is numerically singular without its 1e-8
+            # ridge (with it cond(C) <= n/1e-8 ~ 2e10); the noise-floor-aware claims below still separate a lost ridge
+            # (asymmetry / negative eigenvalues of order one) from rounding (~ n*u*cond)
+            f = float(rng.uniform(1.6, 4.0))
         sc = f * spacing
         coef = logu(rng, 0.1, 10.0)
         r = getattr(aa.reg, name)(coefficient=coef, scale=sc)
         cov = (np.exp(-d ** 2 / (2 * sc ** 2)) if name == "GaussianKernel" else np.exp(-d / sc)) + 1e-8 * np.eye(len(V))
         cond = float(np.linalg.cond(cov))
         W = dict(mesh={"kind": "rect", "shape": shape}, scheme_params={"coefficient": coef, "scale": sc, "scale_in_pixel_spacings": f}, cond_covariance=cond)
-        if cond > 1e9:
-            ctx.skipped["kernel:cond(covariance)>1e9"] += 1
+        if cond > 1e11:
+            ctx.skipped["kernel:cond(covariance)>1e11"] += 1
             continue
         ok, Hm = ctx.guarded("matrix.construct", lambda: _np(r.regularization_matrix_from(linear_obj=lo)).astype(float))
         if not ok:
